@@ -113,6 +113,13 @@ func (ig *ingest) onEffect(e *Effect) {
 		ig.deliver(e)
 	case e.Kind == "mapupdate" && e.Name == "rawmessagesfilter.RawMessageFilter.futureCache":
 		ig.cacheInsert(e)
+	case e.Kind == "mapdelete" && e.Name == "rawmessagesfilter.RawMessageFilter.futureCache":
+		ig.cacheDelete(e)
+	case e.Kind == "store" && e.Name == "rawmessagesfilter.RawMessageFilter.futureCache":
+		if e.Config == "" {
+			ev := a.NewEval(e, ig.r)
+			ev.Verdict("F3.store", props("C17"), "the cache map itself is never replaced while the filter is live", "", false, "store to futureCache outside the constructor")
+		}
 	case e.Kind == "call" && storeKind[e.Name] != "" && len(e.Args) == 2:
 		m := e.Args[1]
 		if e.Config == "" || e.Config == "nv-proven-hash-nonnil" {
@@ -217,6 +224,28 @@ func (ig *ingest) cacheInsert(e *Effect) {
 	ev.Require("F2.future", props("C08", "C17"), "a cached message is for a future height", "net", Lt(k.SHeight, ht(H)))
 	ev.Verdict("F2.key", props("C08", "C17"), "the cache key is the message's own height", "net", ev.Same(key, ht(H)), "key "+key.Key())
 	ev.Require("F5.newest", props("C17"), "only the newest future height is cached", "net", Le(Field(rmf, "latestFutureBlockHeight"), key))
+}
+
+// cacheDelete (F3): deletions are either "clear everything below a bound" or the drained key.
+func (ig *ingest) cacheDelete(e *Effect) {
+	if e.Config != "" || len(e.Splits) > 0 || len(e.Args) != 2 {
+		return
+	}
+	k := ig.k
+	ev := ig.a.NewEval(e, ig.r)
+	key := ev.Arg(1)
+	ok := false
+	why := "deleted key " + PP(key)
+	if key.Op == "mapkey" {
+		for _, b := range ev.Find(Lt(key, Var("bound"))) {
+			_ = b
+			ok = true
+		}
+		why += " without an upper bound test"
+	} else if ev.Same(key, k.SHeight) {
+		ok = true
+	}
+	ev.Verdict("F3.delete", props("C17"), "cache entries are deleted only below a bound (clear-lower) or at the drained key Read(State.height)", "", ok, why)
 }
 
 // ---------------------------------------------------------------- ING-PP
